@@ -45,6 +45,7 @@ impl Scn {
 
 #[derive(Clone, Debug)]
 pub enum Status {
+    /// flattened result, order signature, bit digest of totals; the flat's `meta` holds the parsed metadata
     Ok(Box<Flat>, u64, u64),
     Err(ErrKind),
     Panic(String),
@@ -62,7 +63,12 @@ impl Status {
 
 pub fn eval_status(text: &str, cfg: &EvalCfg) -> Status {
     match sut::evaluate(text, cfg) {
-        Ok(Ok((_, ep))) => Status::Ok(Box::new(sut::flatten(&ep)), sut::order_signature(&ep), sut::totals_bits(&ep)),
+        Ok(Ok((c, ep))) => {
+            let mut flat = sut::flatten(&ep);
+            flat.meta = c.meta.iter().map(|m| (m.key.clone(), m.value.clone())).collect();
+            flat.meta.sort();
+            Status::Ok(Box::new(flat), sut::order_signature(&ep), sut::totals_bits(&ep))
+        }
         Ok(Err(e)) => Status::Err(e.kind),
         Err(p) => Status::Panic(p.site),
     }
@@ -99,6 +105,13 @@ fn compare_status(kind: &str, what: &str, a: &Status, b: &Status, sc: &Scale, ex
             ex.count("comparisons", rep.compared);
             ex.count("skipped_ratio_comparisons", rep.skipped_ratios);
             ex.maxi("max_noise_in_eps_S", rep.max_noise);
+            if fa.meta != fb.meta {
+                return Some(Violation::new(
+                    kind,
+                    "metadata",
+                    format!("{}: the declared metadata are read differently: {:?} vs {:?}", what, fa.meta, fb.meta),
+                ));
+            }
             if rep.ok() {
                 None
             } else {
